@@ -270,7 +270,27 @@ Proof.
   apply encl_atan, encl_div; [exact Ha | apply encl_sqrt, Hd].
 Qed.
 
-Definition acosI (xi : I.type) : I.type := I.sub prec halfpiI (asinI xi).
+(* Outside [-1, 1] Coq's total asin is clamped to +-PI/2, but the point is outside the DOMAIN of the Python function
+   (NumPy returns nan): there the enclosure carries no information, so that the harness classifies the observation as
+   "singular / outside the domain" instead of comparing it with the clamped value.  (I.nai encloses everything: soundness
+   of the evaluator is unaffected.) *)
+Definition asinI_dom (xi : I.type) : I.type :=
+  match I.sign_strict (I.sub prec xi oneI) with
+  | Xgt => I.nai
+  | _ => match I.sign_strict (I.add prec xi oneI) with
+         | Xlt => I.nai
+         | _ => asinI xi
+         end
+  end.
+
+Lemma asinI_dom_correct : forall xi a, encl xi a -> encl (asinI_dom xi) (asin a).
+Proof.
+  intros xi a Ha. unfold asinI_dom.
+  destruct (I.sign_strict (I.sub prec xi oneI)); try apply encl_nai;
+    (destruct (I.sign_strict (I.add prec xi oneI)); try apply encl_nai; apply asinI_correct, Ha).
+Qed.
+
+Definition acosI (xi : I.type) : I.type := I.sub prec halfpiI (asinI_dom xi).
 
 Lemma acos_asin_total : forall a, acos a = PI / 2 - asin a.
 Proof.
@@ -282,7 +302,7 @@ Qed.
 Lemma acosI_correct : forall xi a, encl xi a -> encl (acosI xi) (acos a).
 Proof.
   intros xi a Ha. rewrite acos_asin_total. unfold acosI.
-  apply encl_sub; [apply encl_halfpi | apply asinI_correct, Ha].
+  apply encl_sub; [apply encl_halfpi | apply asinI_dom_correct, Ha].
 Qed.
 
 Definition asinhI (xi : I.type) : I.type :=
@@ -335,7 +355,7 @@ Definition uopI (o : uop) (xi : I.type) : I.type :=
   | Tanh => tanhI xi
   | Sinh => sinhI xi
   | Cosh => coshI xi
-  | Asin => asinI xi
+  | Asin => asinI_dom xi
   | Acos => acosI xi
   | Atan => I.atan prec xi
   | Asinh => asinhI xi
@@ -359,7 +379,7 @@ Proof.
   - apply tanhI_correct, Ha.
   - apply sinhI_correct, Ha.
   - apply coshI_correct, Ha.
-  - apply asinI_correct, Ha.
+  - apply asinI_dom_correct, Ha.
   - apply acosI_correct, Ha.
   - apply encl_atan, Ha.
   - apply asinhI_correct, Ha.
